@@ -130,9 +130,15 @@ def sensitivity(ids, names=None):
         t0 = time.time()
         try:
             env = dict(os.environ, GSIM_REPO=d, GSIM_NO_EVIDENCE="1", GSIM_REPLAY_DIR=os.path.join(d, "replays"))
-            p = subprocess.run([os.path.join(core.VERIF, "check"), m["property"], "quick"], capture_output=True,
-                               text=True, env=env, timeout=1500)
-            out = p.stdout
+            try:
+                p = subprocess.run([os.path.join(core.VERIF, "check"), m["property"], "quick"], capture_output=True,
+                                   text=True, env=env, timeout=3600)
+                out = p.stdout
+            except subprocess.TimeoutExpired as te:
+                class _P:      # a mutant that makes the check crawl: reported as such, the sweep goes on
+                    returncode = 124
+                p = _P()
+                out = (te.stdout or b"").decode("utf-8", "replace") if isinstance(te.stdout, bytes) else (te.stdout or "")
         finally:
             shutil.rmtree(d, ignore_errors=True)
         viol = [ln for ln in out.splitlines() if ln.startswith("VIOLATION")]
